@@ -151,9 +151,27 @@ def run(tier, seed):
     if r.violated:
         raise common.MachineryError("Cell.tla: model-level identity violated: %s" % r.violated)
     recs = r.records
-    us = [1.0, rng.uniform(0.3, 3.0), rng.uniform(3.0, 40.0)]
+    u3 = rng.uniform(3.0, 40.0)
+    # the last two scales are nearly equal (3e-6 apart): a result cached "for the same cell" with a tolerance would be reused
+    us = [1.0, rng.uniform(0.3, 3.0), u3, u3 * (1 + 3e-6)]
     if tier == "thorough" and len(recs) > 300000:
         recs = rng.sample(recs, 300000)
+    # nearly orthogonal cells (angles within 0.003 degree of 90, not equal to it): metric entries of 1e5 do not fit TLC's integers;
+    # the same exact formulas are evaluated with unbounded integers (identities proved for all integers by Apalache)
+    paths = sorted(set(tuple(x["path"]) for x in recs))
+    hk = [q[0] for q in recs[0]["q"]] if recs else [[1, 0, 0]]
+    near = []
+    for _ in range(25 if tier == "quick" else 400):
+        n1, n2, n3 = [rng.choice([40000, 62500, 90000, 250000]) + rng.randint(0, 9) for _ in range(3)]
+        offs = [rng.choice([-2, -1, 1, 2]), rng.choice([-2, -1, 0, 1, 2, n2 // 3]), rng.choice([-1, 0, 1])]
+        rng.shuffle(offs)
+        G = [n1, n2, n3] + offs
+        import genhkl_lib as _gl
+        if not (_gl.spd(G) and _gl.gram_ok(G)):
+            continue
+        for pth in rng.sample(paths, min(6, len(paths))):
+            near.append(L.exact_metric_record(G, hk, pth))
+    recs = recs + near
     res = common.pmap(worker, [(x, us) for x in recs])
     ncalls = 0
     metrics = set()
@@ -172,7 +190,7 @@ def run(tier, seed):
         v.notes.append("%d violating observations collapsed to %d" % (len(v.violations), len(seen)))
         v.violations = list(seen.values())
     cov = {"states": r.distinct, "transitions": r.generated, "traces_validated_against_impl": len(recs),
-           "metrics": len(metrics), "function_calls": ncalls, "scales": us, "exhaustive": False,
+           "metrics": len(metrics), "nearly_orthogonal_bigint_behaviours": len(near), "function_calls": ncalls, "scales": us, "exhaustive": False,
            "rule": "behaviour = (integer metric tensor, path through the representation graph); all valid metrics of the "
                    "configured box x all paths of the configured depth; each replayed in tools and laue for 3 scale factors"}
     if tier == "thorough":
